@@ -178,3 +178,35 @@ def run_both(lines, **kw):
     aug = augment(lines, impl, gran=kw.get("gran"), noatime=kw.get("noatime", False))
     model = run_model(aug)
     return impl, model, compare(lines, impl, model, **cmpkw)
+
+
+def run_many(cases, workers=16, **kw):
+    """cases: list of (label, lines).  -> list of (label, lines, impl, model, diffs)"""
+    import concurrent.futures as cf
+
+    def one(c):
+        label, lines = c
+        try:
+            impl, model, diffs = run_both(lines, **kw)
+            return (label, lines, impl, model, diffs)
+        except Exception as e:  # harness/model crash is a broken tie, not a Python failure
+            return (label, lines, None, None, ["EXCEPTION " + repr(e)])
+    with cf.ThreadPoolExecutor(workers) as ex:
+        return list(ex.map(one, cases))
+
+
+def fd_profile(events):
+    """(peak, residual, lock_calls, opendirs) of a step's raw events, from opens/closes."""
+    cur = peak = 0
+    locks = opendirs = 0
+    for e in events:
+        c = e["call"]
+        if c in ("open", "create", "opentmp", "opendir") and not e["err"]:
+            cur += 1; peak = max(peak, cur)
+        elif c in ("close", "closedir"):
+            cur -= 1
+        if c in ("flock", "fcntl-lock", "lockf"):
+            locks += 1
+        if c == "opendir":
+            opendirs += 1
+    return peak, cur, locks, opendirs
